@@ -80,6 +80,9 @@ type Req struct {
 	WireBody func(enc []byte) []byte
 	// ContentLength overrides the Content-Length header when non-nil
 	ContentLength *int64
+	// TE > 0 sends the body with Transfer-Encoding: chunked in HTTP chunks of TE
+	// bytes instead of a Content-Length
+	TE int
 }
 
 // Signing exposes the intermediate values of the signature computation so a
@@ -97,6 +100,7 @@ type Wire struct {
 	Target  string // path?query
 	Headers []KV
 	Body    []byte
+	TE      int // > 0: body framed as HTTP chunks of this size
 }
 
 func (w *Wire) Get(k string) string {
@@ -523,6 +527,12 @@ func (c *Client) BuildChunked(r Req, co ChunkOpts) *Wire {
 }
 
 func (w *Wire) finishLength(r Req) {
+	if r.TE > 0 {
+		w.Del("Content-Length")
+		w.Set("Transfer-Encoding", "chunked")
+		w.TE = r.TE
+		return
+	}
 	if r.ContentLength != nil {
 		w.Set("Content-Length", strconv.FormatInt(*r.ContentLength, 10))
 		return
@@ -540,6 +550,19 @@ func (w *Wire) Bytes() []byte {
 		fmt.Fprintf(&b, "%s: %s\r\n", h.K, h.V)
 	}
 	b.WriteString("Connection: close\r\n\r\n")
+	if w.TE > 0 {
+		for off := 0; off < len(w.Body); off += w.TE {
+			end := off + w.TE
+			if end > len(w.Body) {
+				end = len(w.Body)
+			}
+			fmt.Fprintf(&b, "%x\r\n", end-off)
+			b.Write(w.Body[off:end])
+			b.WriteString("\r\n")
+		}
+		b.WriteString("0\r\n\r\n")
+		return b.Bytes()
+	}
 	b.Write(w.Body)
 	return b.Bytes()
 }
